@@ -206,10 +206,10 @@ func runCheck(p *property, tier string, seed int) int {
 		}
 		var recs []nativeRec
 		type expect struct {
-			kind    string // path | assert
-			res     *engine.PathResult
-			sig     string
-			viol    *violation
+			kind string // path | assert
+			res  *engine.PathResult
+			sig  string
+			viol *violation
 		}
 		var expects []expect
 		ex := engine.NewExplorer(w, workers())
@@ -444,37 +444,37 @@ func runCheck(p *property, tier string, seed int) int {
 	}
 	nViol := len(fresh)
 	cov := map[string]any{
-		"explanation": p.Explanation + " Decided by: for every explored path the query (path-condition AND NOT assertion) is sent to z3 over QF_BV; unsat on every path = holds for every value of the symbolic inputs within the bounds below; sat = counterexample, replayed natively before being reported.",
-		"evaluations":                   totalPaths,
-		"distinct_nontrivial":           len(distinctSig),
-		"rule":                          "one evaluation = one explored path (one class of inputs sharing all branch decisions of the real code); distinct non-trivial = distinct (case, outcome, observation vector) classes among paths with at least one solver-decided branch",
-		"samples":                       samples,
-		"obligations":                   obligations,
-		"discharged":                    discharged,
+		"explanation":                    p.Explanation + " Decided by: for every explored path the query (path-condition AND NOT assertion) is sent to z3 over QF_BV; unsat on every path = holds for every value of the symbolic inputs within the bounds below; sat = counterexample, replayed natively before being reported.",
+		"evaluations":                    totalPaths,
+		"distinct_nontrivial":            len(distinctSig),
+		"rule":                           "one evaluation = one explored path (one class of inputs sharing all branch decisions of the real code); distinct non-trivial = distinct (case, outcome, observation vector) classes among paths with at least one solver-decided branch",
+		"samples":                        samples,
+		"obligations":                    obligations,
+		"discharged":                     discharged,
 		"obligations_decided_concretely": concreteObl,
-		"traces_validated_against_impl": validated,
-		"paths_not_natively_validated":  nativeSkip,
-		"checker_cmd":                   "z3 -in (4.8.12), one persistent process per worker",
-		"trusted_base":                  append([]string{"symgo SSA interpreter (/verif/engine), cross-validated natively on every explored sequential path", "go/ssa v0.29.0", "z3 4.8.12"}, p.Trusted...),
-		"harness_cases":                 caseCount,
-		"path_kinds":                    kinds,
-		"cut_paths_outside_claim":       cutReasons,
-		"solver_queries":                stats.Queries,
-		"solver_unknown":                stats.Unknown,
-		"solver_time_s":                 round2(stats.SolverTime.Seconds()),
-		"interpreted_ssa_instructions":  stats.Steps,
-		"functions_encoded_total":       fnCount,
-		"functions_encoded_by_package":  fnByPkg,
-		"avfs_functions_encoded":        avfsFns,
-		"load_and_ssa_build_s":          round2(loadTime),
-		"bounds":                        p.Bounds(tier),
-		"known_findings_matched":        knownList,
-		"inconclusive":                  inconcl,
-		"engine_native_mismatches":      len(mismatches),
-		"reach_labels":                  keys(reach),
-		"std_init_lenient_calls":        lenientLog,
-		"intrinsics":                    sortedStrings(engine.IntrinsicNames()),
-		"exhaustive":                    false,
+		"traces_validated_against_impl":  validated,
+		"paths_not_natively_validated":   nativeSkip,
+		"checker_cmd":                    "z3 -in (4.8.12), one persistent process per worker",
+		"trusted_base":                   append([]string{"symgo SSA interpreter (/verif/engine), cross-validated natively on every explored sequential path", "go/ssa v0.29.0", "z3 4.8.12"}, p.Trusted...),
+		"harness_cases":                  caseCount,
+		"path_kinds":                     kinds,
+		"cut_paths_outside_claim":        cutReasons,
+		"solver_queries":                 stats.Queries,
+		"solver_unknown":                 stats.Unknown,
+		"solver_time_s":                  round2(stats.SolverTime.Seconds()),
+		"interpreted_ssa_instructions":   stats.Steps,
+		"functions_encoded_total":        fnCount,
+		"functions_encoded_by_package":   fnByPkg,
+		"avfs_functions_encoded":         avfsFns,
+		"load_and_ssa_build_s":           round2(loadTime),
+		"bounds":                         p.Bounds(tier),
+		"known_findings_matched":         knownList,
+		"inconclusive":                   inconcl,
+		"engine_native_mismatches":       len(mismatches),
+		"reach_labels":                   keys(reach),
+		"std_init_lenient_calls":         lenientLog,
+		"intrinsics":                     sortedStrings(engine.IntrinsicNames()),
+		"exhaustive":                     false,
 	}
 	ev := map[string]any{
 		"property_id": p.ID,
